@@ -161,12 +161,11 @@ def cls_trigger_before_start(clause, lines):
     return True
 
 
-# F-C05a / F-C05b are repaired in /repo (eead572, 40d44b0): their classifiers are kept for the record but no longer
+# F-C05a / F-C05b / F-C05e are repaired in /repo (eead572, 40d44b0, 2efb740): their classifiers are kept for the record but no longer
 # registered, so a recurrence is reported as a violation.
 CLASSIFIERS = {
     "c05_fixed_triggered_without_start": cls_fixed_triggered_without_start,
     "c05_result_from_the_future": cls_result_from_the_future,
-    "c05_trigger_before_start": cls_trigger_before_start,
 }
 
 
@@ -200,8 +199,7 @@ NEGATIVE_CONTROLS = [
 
 class C05(Check):
     prop = "C05"
-    required_theorems = ["in_downtime_iff", "in_downtime_iff_run", "expired_removed_run", "trigger_not_before_start_partial",
-                         "trigger_not_before_start_counterexample", "depth_eq_count", "trigger_write_once", "trigger_write_once_run",
+    required_theorems = ["in_downtime_iff", "in_downtime_iff_run", "expired_removed_run", "trigger_not_before_start", "depth_eq_count", "trigger_write_once", "trigger_write_once_run",
                          "trigger_only_in_window", "trigger_cascade", "trigger_cascade_deep", "flexible_trigger", "flexible_trigger_exact", "start_once", "start_once_future_counterexample",
                          "started_partial", "paused_requests_nothing", "started_counterexample", "end_once", "expired_removed", "owner_protected",
                          "model_trace_meets_spec_partial"]
@@ -210,8 +208,8 @@ class C05(Check):
     level_text = ("Machine-checked theorems (Lean 4 kernel) about the executable model of Downtime::IsInEffect/IsTriggered/IsExpired/CanBeTriggered/"
                   "TriggerDowntime/Start/DowntimesStartTimerHandler/cleanup timer/RemoveDowntime and Checkable::TriggerDowntimes/GetDowntimeDepth/"
                   "IsInDowntime, including a whole-trace theorem (model_trace_meets_spec_partial: every well-formed operation sequence's model trace "
-                  "satisfies every clause kind of the executable specification through the specification's own bookkeeping except the three falsified by the code "
-                  "(16 of 19; masked: fixed_started_when_triggered / fixed_end_has_start = F-C05c, trigger_not_before_start = F-C05e; the DowntimeStart-when-it-takes-effect "
+                  "satisfies every clause kind of the executable specification through the specification's own bookkeeping except the two falsified by the code "
+                  "(17 of 19; masked: fixed_started_when_triggered / fixed_end_has_start = F-C05c; the DowntimeStart-when-it-takes-effect "
                   "clauses are proved for flexible downtimes), and run-level forms of in-downtime-iff (with trigger <= now) and expired-removed (no hypothesis on the cleanup timer); "
                   "the model is tied to the code by running the real objects (direct construction as test/icinga-checkresult.cpp does, "
                   "one case in eight through ConfigObjectUtility::CreateObject / Downtime::AddDowntime in a scratch data directory, and one in eight "
@@ -219,9 +217,9 @@ class C05(Check):
                   "operation sequences and diffing every observation; the executable specification of the property is evaluated on the "
                   "implementation's own trace")
     level_note = ("Trusted: Lean kernel (+ propext, Classical.choice, Quot.sound), sampled correspondence of the hand-written model, harness/driver. "
-                  "Two clauses of the property are false of the code and carried as _partial/_counterexample: a DowntimeStart request for every FIXED downtime that took effect "
-                  "(known finding F-C05c; proved for flexible ones) and 'the recorded trigger time does not lie before start_time' (known finding F-C05e: result executed before "
-                  "start_time but processed inside the window, chained downtime inheriting an earlier trigger time); F-C05a/b are repaired (eead572, 40d44b0) and their theorems are full.")
+                  "One clause of the property is false of the code and carried as _partial/_counterexample: a DowntimeStart request for every FIXED downtime that took effect "
+                  "(known finding F-C05c; proved for flexible ones); F-C05a/b/e are repaired (eead572, 40d44b0, 2efb740: TriggerDowntime clamps the trigger time to the downtime's own "
+                  "start_time) and their theorems (start_once, flexible_trigger, trigger_not_before_start) are full.")
     trusted_base = [
         "modelled, not verified: times are whole seconds, so the cleanup timer's 0.1 s delay is 'the first instant strictly after'; "
         "Downtime objects get authority (Resume) right after creation, as ApiListener::UpdateObjectAuthority does for HARunOnce objects; "
